@@ -192,6 +192,7 @@ def sibling_loop_bounds(repo, res, rule="SIBLINGS"):
 def run(repo, res, tier):
     from . import c04 as _c04
     _c04.allstates(repo, res)  # a fully typed value is recognised only if the state it is typed at has its row of within-word transitions
+    _c04.isocov(repo, res)  # two within-word value sets share one printed table set only if every printed table agrees (ISOCOV, shared with C01 / C04 / C09)
     sibling_loop_bounds(repo, res)
     _bash_printer_skips(repo, res)
     sortlen(repo, res)
